@@ -32,12 +32,13 @@ structure NInv (s : Na.Sys) : Prop where
   lBound : ∀ l ∈ s.logged, l.2 < s.count l.1 ∧ (l.2 = s.count l.1 - 1 → nPre (s.pcs l.1) = false)
   lCarried : ∀ t l, s.pcs t = .unlock l → l ∈ s.logged
   ret : ∀ l ∈ s.returned, l ∈ s.logged
+  who : s.logged.map (·.1) = s.writers
 
 theorem ninv_init : NInv Na.Sys.init := by
-  refine ⟨?_, ?_, ?_, ?_, ?_, ?_, ?_, ?_⟩ <;> simp [Na.Sys.init, nHolds, nLine]
+  refine ⟨?_, ?_, ?_, ?_, ?_, ?_, ?_, ?_, ?_⟩ <;> simp [Na.Sys.init, nHolds, nLine]
 
 theorem ninv_step {s s' : Na.Sys} {a : Na.Act} (hi : NInv s) (h : Na.step s a = some s') : NInv s' := by
-  obtain ⟨mx, carried, buf, file, lOrd, lBound, lCarried, ret⟩ := hi
+  obtain ⟨mx, carried, buf, file, lOrd, lBound, lCarried, ret, who⟩ := hi
   cases a with
   | startLog t =>
     simp only [Na.step] at h
@@ -46,7 +47,7 @@ theorem ninv_step {s s' : Na.Sys} {a : Na.Act} (hi : NInv s) (h : Na.step s a = 
     subst h
     have hmt : s.mutex ≠ some t := by
       intro hm; have := (mx t).mpr hm; rw [hidle] at this; cases this
-    refine ⟨?_, ?_, ?_, file, lOrd, ?_, ?_, ret⟩
+    refine ⟨?_, ?_, ?_, file, lOrd, ?_, ?_, ret, who⟩
     · intro i; have := mx i
       by_cases hit : i = t
       · subst hit; simp [Na.setPc, nHolds]; exact hmt
@@ -79,7 +80,7 @@ theorem ninv_step {s s' : Na.Sys} {a : Na.Act} (hi : NInv s) (h : Na.step s a = 
       split at h <;> simp only [Option.some.injEq, reduceCtorEq] at h
       next hfree =>
       subst h
-      refine ⟨?_, ?_, ?_, file, lOrd, ?_, ?_, ret⟩
+      refine ⟨?_, ?_, ?_, file, lOrd, ?_, ?_, ret, who⟩
       · intro i; have := mx i
         by_cases hit : i = t
         · subst hit; simp [Na.setPc, nHolds]
@@ -117,7 +118,7 @@ theorem ninv_step {s s' : Na.Sys} {a : Na.Act} (hi : NInv s) (h : Na.step s a = 
         have : a.2 ≠ s.count t - 1 := by
           intro e; have := h2 e; rw [hpc] at this; cases this
         omega
-      refine ⟨?_, ?_, ?_, ?_, ?_, ?_, ?_, ?_⟩
+      refine ⟨?_, ?_, ?_, ?_, ?_, ?_, ?_, ?_, ?_⟩
       · intro i; have := mx i
         by_cases hit : i = t
         · subst hit; simp [nHolds, Na.setPc, hown]
@@ -160,11 +161,13 @@ theorem ninv_step {s s' : Na.Sys} {a : Na.Act} (hi : NInv s) (h : Na.step s a = 
         · subst hit; simp only [Na.setPc, if_true] at hil; cases hil; simp
         · simp only [Na.setPc, hit, if_false] at hil; exact List.mem_append_left _ (lCarried i l' hil)
       · intro a ha; exact List.mem_append_left _ (ret a ha)
+      · show (s.logged ++ [l]).map (·.1) = s.writers ++ [t]
+        rw [List.map_append, who]; simp [hlt1]
     · next l hpc =>
       simp only [Option.some.injEq] at h
       subst h
       have hown : s.mutex = some t := hmt.mp (by rw [hpc]; rfl)
-      refine ⟨?_, ?_, ?_, file, lOrd, ?_, ?_, ?_⟩
+      refine ⟨?_, ?_, ?_, file, lOrd, ?_, ?_, ?_, who⟩
       · intro i; have := mx i
         by_cases hit : i = t
         · subst hit; simp [Na.setPc, nHolds]
